@@ -80,8 +80,8 @@ type xl struct {
 }
 
 // identifiers the generated text uses itself; a Go variable of such a name gets a trailing underscore
-var xReserved = strings.Fields(`ctl Next Return Panic bindc go_guard go_call wrapU wrapS go_len go_nth go_in_range go_slice
- go_slice_ok go_bytes_eqb go_be_u16 go_be_u32 go_be_u64 go_emit_u8 go_emit_u16 go_emit_u32 go_emit_u64 go_range go_for
+var xReserved = strings.Fields(`ctl Next Return Panic bindc go_call wrapU wrapS go_len go_nth go_in_range go_slice
+ go_slice_ok go_bytes_eqb go_be_u16 go_be_u32 go_be_u64 go_emit_u8 go_emit_u16 go_emit_u32 go_emit_u64 go_range go_count
  andb orb negb implb true false tt nil cons list unit bool Z N nat fst snd pair Bool eqb
  fun let in if then else match with end as return forall exists fix cofix Type Prop Set struct where at using for IF
  Definition Fixpoint Record Lemma Theorem out st`)
@@ -345,7 +345,7 @@ func guarded(g guards, term string) string {
 	if len(g) == 0 {
 		return term
 	}
-	return "go_guard " + conj(g) + " (" + term + ")"
+	return "if " + conj(g) + " then (" + term + ") else Panic" // the run-time checks of the statement
 }
 
 func lit(v constant.Value) string {
@@ -464,17 +464,18 @@ func (x *xl) binary(e *ast.BinaryExpr, g *guards) string {
 		a := x.expr(e.X, g)
 		var gr guards
 		b := x.expr(e.Y, &gr)
+		// written with [if] (convertible to andb / orb / implb): evaluation, too, skips the right operand
 		for _, c := range gr {
 			if e.Op == token.LAND {
-				*g = append(*g, "(implb "+a+" "+c+")")
+				*g = append(*g, "(if "+a+" then "+c+" else true)")
 			} else {
-				*g = append(*g, "(orb "+a+" "+c+")")
+				*g = append(*g, "(if "+a+" then true else "+c+")")
 			}
 		}
 		if e.Op == token.LAND {
-			return "(andb " + a + " " + b + ")"
+			return "(if " + a + " then " + b + " else false)"
 		}
-		return "(orb " + a + " " + b + ")"
+		return "(if " + a + " then true else " + b + ")"
 	}
 	switch e.Op {
 	case token.EQL, token.NEQ: // comparison with nil: nil is the zero value of the other operand's type
@@ -1047,9 +1048,63 @@ func (x *xl) rangeStmt(s *ast.RangeStmt, rest func() string, d int) string {
 		x.block(s.Body.List, "Next "+term, d+1)+") "+term+")"+ind(d)+"("+bind+ind(d)+rest()+")")
 }
 
-// for i := a; cond; i++ { body } : fuelled loop; the fuel is the (non-negative part of the) distance the
-// spec of the unit allows, here the syntactic form  i < n  /  i <= n  with i incremented by one gives n - a + 1.
+// for i := a; i < n; i++ { body } where the body assigns neither i nor a variable n mentions: a counted fold
 func (x *xl) forStmt(s *ast.ForStmt, rest func() string, d int) string {
-	x.fail(s, "three-clause and condition-only for loops are outside the subset (only range loops over slices)")
-	return ""
+	bad := func() {
+		x.fail(s, "only loops of the form  for i := a; i < n; i++ { ... }  (and range loops over slices) are in the subset")
+	}
+	init, ok := s.Init.(*ast.AssignStmt)
+	if !ok || init.Tok != token.DEFINE || len(init.Lhs) != 1 || len(init.Rhs) != 1 {
+		bad()
+	}
+	iv := x.lvalue(init.Lhs[0])
+	cond, ok := s.Cond.(*ast.BinaryExpr)
+	post, ok2 := s.Post.(*ast.IncDecStmt)
+	if iv == nil || !ok || !ok2 || cond.Op != token.LSS || post.Tok != token.INC {
+		bad()
+	}
+	if ci, ok := cond.X.(*ast.Ident); !ok || x.info.ObjectOf(ci) != iv {
+		bad()
+	}
+	if pi, ok := post.X.(*ast.Ident); !ok || x.info.ObjectOf(pi) != iv {
+		bad()
+	}
+	if _, _, isInt := intType(iv.Type()); !isInt {
+		bad()
+	}
+	x.noBranch(s.Body)
+	vs := x.assigned(s.Body.List)
+	frozen := map[types.Object]bool{iv: true} // what the bound mentions (and i) must not be assigned by the body
+	ast.Inspect(cond.Y, func(n ast.Node) bool {
+		if id, ok := n.(*ast.Ident); ok {
+			frozen[x.info.ObjectOf(id)] = true
+		}
+		return true
+	})
+	ast.Inspect(s.Body, func(n ast.Node) bool {
+		var ls []ast.Expr
+		switch n := n.(type) {
+		case *ast.AssignStmt:
+			if n.Tok != token.DEFINE {
+				ls = n.Lhs
+			}
+		case *ast.IncDecStmt:
+			ls = []ast.Expr{n.X}
+		}
+		for _, l := range ls {
+			if v := x.lvalue(l); v != nil && frozen[v] {
+				x.fail(l, "the loop body assigns %s, which the loop counter or its bound depends on", v.Name())
+			}
+		}
+		return true
+	})
+	var g guards
+	a := x.expr(init.Rhs[0], &g)
+	in := x.declare(iv)
+	n := x.expr(cond.Y, &g)
+	term, _, bind := x.state(s, vs)
+	x.loops++
+	defer func() { x.loops-- }()
+	return guarded(g, "bindc (go_count "+a+" "+n+" (fun ("+in+" : Z) => "+bind+ind(d+1)+
+		x.block(s.Body.List, "Next "+term, d+1)+") "+term+")"+ind(d)+"("+bind+ind(d)+rest()+")")
 }
